@@ -123,16 +123,28 @@ class ReadFaults:
 
 class RglobOrder:
     """Wrap pathlib.Path.rglob: the result is returned as a list permuted by a seeded
-    shuffle (file-system enumeration order is unspecified)."""
+    shuffle (file-system enumeration order is unspecified).  Optionally the n-th call
+    (1-based, counted while `armed`) fails: kind 'LIST_EIO' raises OSError, kind
+    'LIST_SHORT' silently returns a truncated listing (what Python 3.12's rglob does when
+    scandir fails underneath)."""
 
     def __init__(self, seed: int | None):
         self.seed = seed
         self.calls = 0
         self._orig = None
+        self.fault = None  # {"n": int, "kind": str, "cut": float}
+        self.fault_calls = 0
+        self.fired = None
+
+    def arm(self, fault):
+        self.fault = fault
+        self.fault_calls = 0
+        self.fired = None
+
+    def disarm(self):
+        self.fault = None
 
     def __enter__(self):
-        if self.seed is None:
-            return self
         import random
 
         self._orig = orig = pathlib.Path.rglob
@@ -141,7 +153,15 @@ class RglobOrder:
         def rglob(self, *a, **kw):  # noqa: ANN001
             res = sorted(orig(self, *a, **kw))
             me.calls += 1
-            random.Random(f"{me.seed}:{self}:{a}").shuffle(res)
+            if me.seed is not None:
+                random.Random(f"{me.seed}:{self}:{a}").shuffle(res)
+            if me.fault is not None:
+                me.fault_calls += 1
+                if me.fault_calls == me.fault["n"]:
+                    me.fired = f"{self.name}#{me.fault_calls}:{me.fault['kind']}"
+                    if me.fault["kind"] == "LIST_EIO":
+                        raise OSError(errno.EIO, os.strerror(errno.EIO), str(self))
+                    res = res[: int(len(res) * me.fault.get("cut", 0.5))]
             return res
 
         pathlib.Path.rglob = rglob
